@@ -338,4 +338,19 @@ theorem C06_engine_skip_refines_protocol (self : Nat) (s : Eng) (f : LTXFile) (h
   simp only [hdb, if_true]
   rw [if_pos hc]
 
+set_option maxRecDepth 20000 in
+/-- Applying a transaction file moves the position last and once — facts proved by `decide`
+    about the skeleton of `ApplyLTXNoLock` regenerated from db.go: the file is opened before any
+    page is written, pages are written before the database is truncated to the commit size,
+    and the one `setPos` comes after both and before the store is told about the change. -/
+theorem C06_apply_sets_the_position_last :
+    let ix (sk : List (String × String)) (x : String × String) (d : Nat) := (sk.findIdx? (· == x)).getD d
+    let t := Gen.Skel.DB_ApplyLTXNoLock
+    ix t ("call", "db.os.OpenFile") 1000 < ix t ("call", "db.writeDatabasePage") 0 ∧
+    ix t ("call", "db.writeDatabasePage") 1000 < ix t ("call", "db.truncateDatabase") 0 ∧
+    ix t ("call", "db.truncateDatabase") 1000 < ix t ("call", "db.setPos") 0 ∧
+    ix t ("call", "db.setPos") 1000 < ix t ("call", "db.store.MarkDirty") 0 ∧
+    (t.filter (· == ("call", "db.setPos"))).length = 1 := by
+  decide
+
 end LiteFSVerif.C06
